@@ -1,7 +1,7 @@
 (** C16 - Diffs are faithful to both values.  Statements only; the proofs are in Diff/Proofs_*.v.
     Vocabulary: Diff/Model.v (the transcription of diff/*.go and function.go:diffEnv) and Diff/Spec.v. *)
 From Dawn Require Import Diff.Model Diff.Spec Diff.Proofs_Basic Diff.Proofs_Record Diff.Proofs_Search
-     Diff.Proofs_Seq Diff.Proofs_Value Diff.Proofs_Reason.
+     Diff.Proofs_Seq Diff.Proofs_Rounds Diff.Proofs_Value Diff.Proofs_Reason.
 Open Scope Z_scope.
 
 (** The diff of two values is empty exactly when they are equal (EqualDepth at the same depth says true). *)
@@ -41,18 +41,19 @@ Theorem search_valid : forall (A : Type) (eqv : A -> A -> option bool) route_siz
 Proof. intros A eqv rs a b size st epc H. exact (search_valid_lemma A eqv rs a b size H st epc). Qed.
 Print Assumptions search_valid.
 
-(** Both layers together, for diffSlice on any element type: the edit script is faithful to both sequences
-    in the order given, whatever their relative lengths, provided the first search did not exhaust the
-    route table. *)
+(** Both layers together, for diffSlice on any element type: whenever it returns a script at all (i.e. no
+    EqualDepth error, and the model's fuel is not exceeded), the script is faithful to both sequences in the
+    order given, whatever their relative lengths.  This includes the case in which the route table fills up
+    and compose goes round its outer loop again on the remaining suffixes (the search then yields a valid
+    path to an intermediate point, and the walker continues from what the earlier rounds recorded). *)
 Theorem seq_edits_faithful_generic : forall (A : Type) (eqv : A -> A -> option bool) route_size a b script,
   diff_slice A eqv route_size a b = Ok script ->
-  exhausted A eqv route_size a b = Ok false ->
   old_proj A script = a /\ Forall2 (equiv A eqv) (new_proj A script) b.
-Proof. exact diff_slice_faithful. Qed.
+Proof. exact diff_slice_faithful_all. Qed.
 Print Assumptions seq_edits_faithful_generic.
 
 (** The route table cannot fill up when (m+1)(n+1) <= defaultRouteSize (2 000 000: e.g. both sequences
-    shorter than 1 413 elements). *)
+    shorter than 1 413 elements); then a single search reaches the far corner. *)
 Theorem route_table_suffices : forall (A : Type) (eqv : A -> A -> option bool) route_size a b script,
   (zlen A a + 1) * (zlen A b + 1) <= route_size ->
   diff_slice A eqv route_size a b = Ok script ->
@@ -68,14 +69,13 @@ Print Assumptions route_table_suffices.
 Theorem seq_edits_faithful : forall route_size d a b ca ea cb eb df,
   sliceable a = Some (ca, ea) -> sliceable b = Some (cb, eb) ->
   diff_depth route_size (S d) a b = Ok (Some df) ->
-  (Z.of_nat (length ea) + 1) * (Z.of_nat (length eb) + 1) <= route_size ->
   exists script edits,
     df = DSlice a b edits /\
     Forall2 (rendered d ca cb) script edits /\
     Forall edit_shape script /\
     old_proj value script = ea /\
     Forall2 (equiv value (veq_d depth1000)) (new_proj value script) eb.
-Proof. exact seq_edits_faithful_bounded_lemma. Qed.
+Proof. exact seq_edits_faithful_all_lemma. Qed.
 Print Assumptions seq_edits_faithful.
 
 (** For mappings there is an edit exactly for each key added, removed or changed, of the right kind and
